@@ -9,7 +9,7 @@ independent Go visibility/import oracle.
 import os
 
 THEOREMS = ["IstioModel.C07.HostTheorems", "IstioModel.C07.VisTheorems"]
-STREAMS = [("host", 3000, 60000), ("vis", 2000, 40000)]
+STREAMS = [("host", 3000, 60000), ("vis", 1500, 30000), ("scope", 3000, 60000)]
 
 
 def oracle(ctx, stream, case_lines, rep):
